@@ -139,3 +139,25 @@ ess_cert_id_chain = no
 ess_cert_id_alg = sha256
 """ % (d, serial, tsa_crt, chain_pem, tsa_key))
     return cfg
+
+
+def ocsp_response_multi(d, name, ca_crt, ca_key, responder_crt, responder_key, entries, ndays=7):
+    """one OCSP response with several SingleResponses, in the order of `entries` = [(cert_pem, status), ...]"""
+    idx = os.path.join(d, name + ".index")
+    lines = []
+    for crt, status in entries:
+        ser = serial_of(crt)
+        if status == "good":
+            lines.append("V\t350101000000Z\t\t%s\tunknown\t/CN=x" % ser)
+        elif status == "revoked":
+            lines.append("R\t350101000000Z\t240101000000Z\t%s\tunknown\t/CN=x" % ser)
+    open(idx, "w").write("\n".join(lines) + ("\n" if lines else ""))
+    open(idx + ".attr", "w").write("unique_subject = no\n")
+    req = os.path.join(d, name + ".req")
+    resp = os.path.join(d, name + ".resp")
+    args = ["ocsp", "-issuer", ca_crt]
+    for crt, _ in entries:
+        args += ["-cert", crt]
+    run(args + ["-no_nonce", "-reqout", req])
+    run(["ocsp", "-index", idx, "-CA", ca_crt, "-rsigner", responder_crt, "-rkey", responder_key, "-reqin", req, "-respout", resp, "-ndays", str(ndays)])
+    return resp
